@@ -900,6 +900,36 @@ theorem sum_lookup_le : ∀ (ids : List Nat) (q : List (Nat × Int)), ids.Nodup 
     simp only [List.map_cons, List.sum_cons]
     omega
 
+theorem slack_nonneg (q : List (Nat × Int)) (hq : ∀ p ∈ q, 1 ≤ p.2) : 0 ≤ sumQ q - onesQ q := by
+  induction q with
+  | nil => simp [sumQ, onesQ]
+  | cons p rest ih =>
+    have hp := hq p List.mem_cons_self
+    have := ih (fun p hp => hq p (List.mem_cons_of_mem _ hp))
+    rw [KG.Props.C07.sumQ_cons, KG.Props.C07.onesQ_cons]
+    unfold KG.Props.C07.isOne; split <;> omega
+
+/-- a recorded quota other than the minimum 1 is within `sum − #ones` -/
+theorem quota_le_slack (q : List (Nat × Int)) (hq : ∀ p ∈ q, 1 ≤ p.2) (a : Nat) (c : Int)
+    (h : q.lookup a = some c) : c - KG.Props.C07.isOne c ≤ sumQ q - onesQ q := by
+  induction q with
+  | nil => simp [List.lookup] at h
+  | cons p rest ih =>
+    obtain ⟨j, v⟩ := p
+    have hv := hq (j, v) List.mem_cons_self
+    have hrest := slack_nonneg rest (fun p hp => hq p (List.mem_cons_of_mem _ hp))
+    rw [KG.Props.C07.sumQ_cons, KG.Props.C07.onesQ_cons]
+    by_cases hj : a = j
+    · subst hj
+      simp [List.lookup] at h
+      subst h
+      simp only; omega
+    · have : (a == j) = false := by simpa using hj
+      simp [List.lookup, this] at h
+      have := ih (fun p hp => hq p (List.mem_cons_of_mem _ hp)) h
+      have : 0 ≤ v - KG.Props.C07.isOne v := by unfold KG.Props.C07.isOne; split <;> omega
+      simp only; omega
+
 theorem judgeG_remote {g : GObs} (h : judgeG g = []) (hr : g.remote = true) :
     ∃ r, g.raw = some r ∧ (0 ≤ r → g.enforced ≤ r) := by
   unfold judgeG at h
@@ -961,7 +991,7 @@ theorem system_of_parts (s : SObs) (gs : List GObs) (hg : ∀ g ∈ gs, judgeG g
 
 theorem recordedOK_of_sinv {e : UpStore} (h : SInv e) : recordedOK (obsS e) = true := by
   simp only [recordedOK, obsS, Bool.and_eq_true, List.all_eq_true, decide_eq_true_eq]
-  exact ⟨⟨h.ge_one, h.recorded⟩, h.slack⟩
+  exact ⟨⟨h.ge_one, decide_eq_true h.recorded⟩, decide_eq_true h.slack⟩
 
 /-- the judge accepts the observation of every state that satisfies the loop invariant -/
 theorem judgeU_of_linv {s : State} (h : LInv s) (u : Nat) : judgeU (obsU s u) = [] := by
@@ -989,5 +1019,538 @@ theorem judgeU_of_linv {s : State} (h : LInv s) (u : Nat) : judgeU (obsU s u) = 
     have hrec := recordedOK_of_sinv (h.srv.ups _ (aget_mem he))
     have hsys := system_of_parts (obsS e) (obsU s u).gws hgs hrec
     simp [hrec, hsys]
+
+/-! ## records under drops and reports -/
+
+theorem lookup_filter_drop (q : List (Nat × Int)) (p : Nat → Bool) (d : Nat) (hd : p d = true) :
+    (q.filter (fun x => !p x.1)).lookup d = none := by
+  induction q with
+  | nil => rfl
+  | cons a rest ih =>
+    obtain ⟨j, v⟩ := a
+    by_cases hj : p j = true
+    · simp only [List.filter_cons, hj, Bool.not_true, Bool.false_eq_true, if_false]; exact ih
+    · have hjf : p j = false := by simpa using hj
+      have hne : (d == j) = false := by
+        simp only [beq_eq_false_iff_ne, ne_eq]; intro e; rw [e] at hd; rw [hd] at hjf; cases hjf
+      simp only [List.filter_cons, hjf, Bool.not_false, if_true, List.lookup, hne]; exact ih
+
+theorem lookup_filter_keep (q : List (Nat × Int)) (p : Nat → Bool) (j : Nat) (hj : p j = false) :
+    (q.filter (fun x => !p x.1)).lookup j = q.lookup j := by
+  induction q with
+  | nil => rfl
+  | cons a rest ih =>
+    obtain ⟨i, v⟩ := a
+    by_cases hi : p i = true
+    · have hne : (j == i) = false := by
+        simp only [beq_eq_false_iff_ne, ne_eq]; intro e; rw [e] at hj; rw [hj] at hi; cases hi
+      simp only [List.filter_cons, hi, Bool.not_true, Bool.false_eq_true, if_false, List.lookup, hne]; exact ih
+    · have hif : p i = false := by simpa using hi
+      simp only [List.filter_cons, hif, Bool.not_false, if_true, List.lookup]
+      cases (j == i) <;> simp [ih]
+
+theorem lookupD_setQuota_self (q : List (Nat × Int)) (i : Nat) (v : Int) : lookupD (setQuota q i v) i = v := by
+  induction q with
+  | nil => simp [setQuota, lookupD, List.lookup]
+  | cons a rest ih =>
+    obtain ⟨j, w⟩ := a
+    unfold setQuota
+    by_cases hj : j = i
+    · subst hj; simp [lookupD, List.lookup]
+    · have : (i == j) = false := by simp; exact fun e => hj e.symm
+      simp only [hj, if_false]
+      simp only [lookupD, List.lookup, this] at ih ⊢
+      exact ih
+
+theorem lookupD_setQuota_ne (q : List (Nat × Int)) (i j : Nat) (v : Int) (h : j ≠ i) :
+    lookupD (setQuota q i v) j = lookupD q j := by
+  induction q with
+  | nil =>
+    have : (j == i) = false := by simpa using h
+    simp [setQuota, lookupD, List.lookup, this]
+  | cons a rest ih =>
+    obtain ⟨k, w⟩ := a
+    unfold setQuota
+    by_cases hk : k = i
+    · subst hk
+      have : (j == k) = false := by simpa using h
+      simp [lookupD, List.lookup, this]
+    · simp only [hk, if_false]
+      simp only [lookupD, List.lookup] at ih ⊢
+      cases (j == k) <;> simp [ih]
+
+/-- a survivor that asks for at least everything that is left gets exactly everything that is left -/
+theorem answer_takes_all (s : Alloc.Srv) (i : Nat) (x m : Rat) (hm : m ≤ x)
+    (hx : ((lookupD s.quotas i + (s.total - s.recSum) : Int) : Rat) ≤ x)
+    (h1 : 1 ≤ lookupD s.quotas i + (s.total - s.recSum)) (h2 : lookupD s.quotas i + (s.total - s.recSum) ≤ s.total) :
+    Alloc.answer s i x m = lookupD s.quotas i + (s.total - s.recSum) := by
+  unfold Alloc.answer
+  have hcast : ((lookupD s.quotas i + (s.total - s.recSum) : Int) : Rat)
+      = (lookupD s.quotas i : Rat) + ((s.total : Rat) - (s.recSum : Rat)) := by
+    simp [Rat.intCast_add, Rat.intCast_sub]
+  have h1' : (1 : Rat) ≤ (lookupD s.quotas i : Rat) + ((s.total : Rat) - (s.recSum : Rat)) := by
+    rw [← hcast]; exact_mod_cast h1
+  have h2' : (lookupD s.quotas i : Rat) + ((s.total : Rat) - (s.recSum : Rat)) ≤ (s.total : Rat) := by
+    rw [← hcast]; exact_mod_cast h2
+  rw [hcast] at hx
+  have : Alloc.tailPre (F := Rat) x m (lookupD s.quotas i) ((s.total : Rat) - (s.recSum : Rat)) (s.total : Rat)
+      = (lookupD s.quotas i : Rat) + ((s.total : Rat) - (s.recSum : Rat)) := by
+    simp only [Alloc.tailPre, Alloc.QArith.lt, Alloc.QArith.sub, Alloc.QArith.add, Alloc.QArith.ofInt]
+    split <;> split <;> split <;> split <;> simp_all <;> grind
+  rw [this, ← hcast]
+  exact Rat.ceil_intCast _
+
+/-! ## helpers of `KG.Props.C07Loop`: the passes on one record, the projection onto C09, histories without lowering -/
+
+theorem persist_ups (s : Server) : s.persist.ups = s.ups := by
+  unfold Server.persist; split <;> rfl
+
+theorem persist_hb (s : Server) : s.persist.hb = s.hb := by
+  unfold Server.persist; split <;> rfl
+
+theorem drop_dropped (e : UpStore) (p : Nat → Bool) (d : Nat) (hd : p d = true) :
+    (e.drop p).has d = false ∧ (e.drop p).quotaOf d = 0 := by
+  have h := lookup_filter_drop e.srv.quotas p d hd
+  constructor
+  · show (List.lookup d (e.srv.quotas.filter (fun q => !p q.1))).isSome = false
+    rw [h]; rfl
+  · show (List.lookup d (e.srv.quotas.filter (fun q => !p q.1))).getD 0 = 0
+    rw [h]; rfl
+
+theorem drop_kept (e : UpStore) (p : Nat → Bool) (j : Nat) (hj : p j = false) :
+    (e.drop p).quotaOf j = e.quotaOf j ∧ (e.drop p).has j = e.has j := by
+  have h := lookup_filter_keep e.srv.quotas p j hj
+  constructor
+  · show (List.lookup j (e.srv.quotas.filter (fun q => !p q.1))).getD 0 = (List.lookup j e.srv.quotas).getD 0
+    rw [h]
+  · show (List.lookup j (e.srv.quotas.filter (fun q => !p q.1))).isSome = (List.lookup j e.srv.quotas).isSome
+    rw [h]
+
+/-- what the time-out pass does to the record of one upstream -/
+theorem cleanupTimeout_ups (shardOf : Nat → Nat) (s : Server) (now u : Nat) :
+    aget (s.cleanupTimeout shardOf now).ups u =
+      (aget s.ups u).map (fun e => if s.isLeader (shardOf u)
+        then e.drop (fun i => (s.dead now).contains i && e.labelled.contains i) else e) := by
+  unfold Server.cleanupTimeout
+  rw [persist_ups]
+  exact aget_map s.ups (fun k e => if s.isLeader (shardOf k)
+    then e.drop (fun i => (s.dead now).contains i && e.labelled.contains i) else e) u
+
+theorem cleanupUnknown_ups (shardOf : Nat → Nat) (s : Server) (u : Nat) :
+    aget (s.cleanupUnknown shardOf).ups u =
+      (aget s.ups u).map (fun e => if s.isLeader (shardOf u) then e.drop (fun i => !s.hbHas i) else e) := by
+  unfold Server.cleanupUnknown
+  rw [persist_ups]
+  exact aget_map s.ups (fun k e => if s.isLeader (shardOf k) then e.drop (fun i => !s.hbHas i) else e) u
+
+
+/-- `st` is reached by C09's model from the freshly constructed `upstreamLimiter` by an operation list inside C09's
+    quantifier (`Allowed .mi`: schemas accepted by validation, of the max-in-flight type) -/
+def GwReach (st : RemoteLimiter.State) : Prop :=
+  ∃ log : List RemoteLimiter.Op, KG.Props.C09.Allowed .mi log ∧ RemoteLimiter.exec {} log = some st
+
+/-- what C09's quantifier asks of one operation -/
+def C09Ok : RemoteLimiter.Op → Prop
+  | .schema s => KG.Spec.RemoteLimiter.validSchema s = true ∧ RemoteLimiter.guessType s = .mi
+  | .meter x => 0 < x.rateDen
+  | _ => True
+
+theorem exec_snoc : ∀ (log : List RemoteLimiter.Op) (st st' st'' : RemoteLimiter.State) (op : RemoteLimiter.Op),
+    RemoteLimiter.exec st log = some st' → RemoteLimiter.step st' op = .ok st'' →
+    RemoteLimiter.exec st (log ++ [op]) = some st''
+  | [], st, st', st'', op, h1, h2 => by
+    simp only [RemoteLimiter.exec, Option.some.injEq] at h1
+    subst h1
+    simp [RemoteLimiter.exec, h2]
+  | o :: rest, st, st', st'', op, h1, h2 => by
+    simp only [List.cons_append, RemoteLimiter.exec] at h1 ⊢
+    cases hs : RemoteLimiter.step st o with
+    | error e => rw [hs] at h1; cases h1
+    | ok s1 =>
+      rw [hs] at h1
+      simp only at h1 ⊢
+      exact exec_snoc rest s1 st' st'' op h1 h2
+
+theorem allowed_snoc {log : List RemoteLimiter.Op} {op : RemoteLimiter.Op} (h : KG.Props.C09.Allowed .mi log)
+    (hop : C09Ok op) : KG.Props.C09.Allowed .mi (log ++ [op]) := by
+  intro o ho
+  rcases List.mem_append.1 ho with e | e
+  · exact h o e
+  · simp only [List.mem_singleton] at e
+    subst e
+    cases o <;> first | exact hop | trivial
+
+theorem gwReach_step {st st' : RemoteLimiter.State} {op : RemoteLimiter.Op} (h : GwReach st)
+    (hs : RemoteLimiter.step st op = .ok st')
+    (hop : C09Ok op) : GwReach st' := by
+  obtain ⟨log, h1, h2⟩ := h
+  exact ⟨log ++ [op], allowed_snoc h1 hop, exec_snoc log _ _ _ op h2 hs⟩
+
+theorem gwReach_init (n : Nat) : GwReach (gwInit n) :=
+  ⟨[.shards n], by intro o ho; simp only [List.mem_singleton] at ho; subst ho; trivial, rfl⟩
+
+theorem valid_mk {l t : Int} (h0 : 0 ≤ l) (h1 : l ≤ t) (h2 : t ≤ maxInt32) :
+    KG.Spec.RemoteLimiter.validSchema (mkSchema l t) = true ∧ RemoteLimiter.guessType (mkSchema l t) = .mi := by
+  constructor
+  · simp [KG.Spec.RemoteLimiter.validSchema, mkSchema, h0, h1, h2]
+  · simp [RemoteLimiter.guessType, mkSchema]
+
+/-- the loop invariant extended with the projection -/
+structure RInv (s : State) : Prop where
+  inv : LInv s
+  reach : ∀ g ∈ s.gws, ∀ u, GwReach (g.st s.nShards u)
+
+theorem st_congr (n : Nat) {g g' : Gw} (h1 : g'.ups = g.ups) (h2 : g'.hbs = g.hbs) (u : Nat) : g'.st n u = g.st n u := by
+  simp [Gw.st, h1, h2]
+
+theorem rinv_setGw {s : State} (h : RInv s) (g : Nat) (x : Gw) (hx : GwInv s.nShards x)
+    (hr : ∀ u, GwReach (x.st s.nShards u)) : RInv (s.setGw g x) := by
+  refine ⟨linv_setGw h.inv g x hx, ?_⟩
+  intro y hy u
+  rcases List.mem_or_eq_of_mem_set hy with e | e
+  · exact h.reach y e u
+  · subst e; exact hr u
+
+theorem rinv_srv {s : State} (h : RInv s) (srv' : Server) (hs : SrvInv srv') : RInv { s with srv := srv' } :=
+  ⟨linv_srv h.inv srv' hs, h.reach⟩
+
+theorem rinv_step (shardOf : Nat → Nat) {s : State} (h : RInv s) (op : Op) (hop : OpOK op) :
+    RInv (step shardOf s op) := by
+  have hl := linv_step shardOf h.inv op hop
+  have hsrv : (step shardOf s op).gws = s.gws → (step shardOf s op).nShards = s.nShards →
+      RInv (step shardOf s op) := fun e1 e2 => ⟨hl, by rw [e1, e2]; exact h.reach⟩
+  cases op with
+  | list u t => exact hsrv rfl rfl
+  | handle u => exact hsrv rfl rfl
+  | tick now => exact hsrv rfl rfl
+  | unknownPass => exact hsrv rfl rfl
+  | elect k b => exact hsrv rfl rfl
+  | gain k => exact hsrv rfl rfl
+  | lose k => exact hsrv rfl rfl
+  | gwSchema g u l t =>
+    simp only [step] at hl ⊢
+    split
+    · exact h
+    · rename_i x hx
+      split
+      · have hxi := h.inv.gws x (gw_mem hx)
+        refine rinv_setGw h g _ (gwInv_schema hxi u hop.1 hop.2.1 hop.2.2) ?_
+        intro v
+        obtain ⟨c', hstep, _, _⟩ := step_schema (hxi.ok u) hop.1 hop.2.1 hop.2.2
+        have hap : (x.apply s.nShards u (.schema (mkSchema l t))).ups
+            = aset x.ups u { x.st s.nShards u with cache := some c' } := by simp [Gw.apply, stepOr, hstep]
+        obtain ⟨hsu, hsv⟩ := st_of_aset s.nShards x (x.apply s.nShards u (.schema (mkSchema l t))) u _ hap rfl
+        change GwReach ((x.apply s.nShards u (.schema (mkSchema l t))).st s.nShards v)
+        by_cases hv : v = u
+        · subst hv; rw [hsu]
+          exact gwReach_step (h.reach x (gw_mem hx) v) hstep (valid_mk hop.1 hop.2.1 hop.2.2)
+        · rw [hsv v hv]; exact h.reach x (gw_mem hx) v
+      · exact h
+  | hb g now =>
+    simp only [step] at hl ⊢
+    split
+    · exact h
+    · rename_i x hx
+      have hxi := h.inv.gws x (gw_mem hx)
+      have hr : ∀ ok now', ∀ v, GwReach ((x.heartbeat ok now').st s.nShards v) := by
+        intro ok now' v
+        rw [st_heartbeat hxi]
+        have := step_hb (x.st s.nShards v) ok now'
+        rw [hxi.hb v] at this
+        exact gwReach_step (h.reach x (gw_mem hx) v) this trivial
+      split
+      · exact h
+      · split
+        · exact rinv_srv (rinv_setGw h g _ (gwInv_heartbeat hxi true _) (hr true _)) _ (srvInv_heartbeat h.inv.srv _ _)
+        · exact rinv_setGw h g _ (gwInv_heartbeat hxi false _) (hr false _)
+  | report g u x m used lvl =>
+    simp only [step] at hl ⊢
+    split
+    · exact h
+    · rename_i gw hgw
+      split
+      · exact h
+      · rename_i hrep
+        split
+        · exact h
+        · rename_i srv' n hsr
+          have hgi := h.inv.gws gw (gw_mem hgw)
+          have hcache : ((gw.st s.nShards u).cache).isSome = true := by
+            simp [reports] at hrep
+            cases hcc : (gw.st s.nShards u).cache with
+            | none => exact absurd hcc hrep.1.2
+            | some _ => rfl
+          have hsrv' : SrvInv srv' := by
+            have := srvInv_report shardOf h.inv.srv u gw.id x m used lvl
+            rw [hsr] at this; exact this
+          refine rinv_srv (rinv_setGw h g _ (gwInv_answer hgi u n hcache) ?_) _ hsrv'
+          intro v
+          rcases step_answer (hgi.ok u) n with ⟨hnone, _⟩ | ⟨c, l, t, hc, hloc, t0, t1, hstep⟩
+          · rw [hnone] at hcache; cases hcache
+          · have hap : (gw.apply s.nShards u (.answer true (mkItem n))).ups
+                = aset gw.ups u { gw.st s.nShards u with cache := some { c with remote := some (remShape n (bound n t)) } } := by
+              simp [Gw.apply, stepOr, hstep]
+            obtain ⟨hsu, hsv⟩ := st_of_aset s.nShards gw (gw.apply s.nShards u (.answer true (mkItem n))) u _ hap rfl
+            change GwReach ((gw.apply s.nShards u (.answer true (mkItem n))).st s.nShards v)
+            by_cases hv : v = u
+            · subst hv; rw [hsu]
+              exact gwReach_step (h.reach gw (gw_mem hgw) v) hstep trivial
+            · rw [hsv v hv]; exact h.reach gw (gw_mem hgw) v
+  | net g b =>
+    simp only [step] at hl ⊢
+    split
+    · exact h
+    · rename_i x hx
+      exact rinv_setGw h g _ (gwInv_congr (h.inv.gws x (gw_mem hx)) rfl rfl rfl)
+        (fun v => by change GwReach (x.st s.nShards v); exact h.reach x (gw_mem hx) v)
+  | crash g =>
+    simp only [step] at hl ⊢
+    split
+    · exact h
+    · rename_i x hx
+      exact rinv_setGw h g _ (gwInv_congr (h.inv.gws x (gw_mem hx)) rfl rfl rfl)
+        (fun v => by change GwReach (x.st s.nShards v); exact h.reach x (gw_mem hx) v)
+  | ret g id =>
+    simp only [step] at hl ⊢
+    split
+    · exact h
+    · rename_i x hx
+      refine rinv_setGw h g _ (gwInv_reset s.nShards x id) ?_
+      intro v
+      have : ({ x with id := id, alive := true, hbs := none, ups := [], fresh := [] } : Gw).st s.nShards v
+          = gwInit s.nShards := by simp [Gw.st, aget, gwInit]
+      rw [this]; exact gwReach_init _
+
+theorem rinv_init (nShards nGw : Nat) (k8s : Bool) : RInv (init nShards nGw k8s) := by
+  refine ⟨linv_init nShards nGw k8s, ?_⟩
+  intro g hg u
+  simp only [init, List.mem_map, List.mem_range] at hg
+  obtain ⟨i, _, rfl⟩ := hg
+  have : (⟨i, true, true, none, [], []⟩ : Gw).st nShards u = gwInit nShards := by simp [Gw.st, aget, gwInit]
+  simp only [init]
+  rw [this]; exact gwReach_init _
+
+theorem rinv_run (shardOf : Nat → Nat) : ∀ (ops : List Op) (s : State), RInv s → (∀ op ∈ ops, OpOK op) →
+    RInv (run shardOf s ops)
+  | [], s, h, _ => h
+  | op :: rest, s, h, hops => by
+    simp only [run, List.foldl_cons]
+    exact rinv_run shardOf rest _ (rinv_step shardOf h op (hops op List.mem_cons_self))
+      (fun o ho => hops o (List.mem_cons_of_mem _ ho))
+
+
+/-- the history never lowers the configured global limit of an upstream (`KG.Props.C07.Legal` for the loop): every
+    `.list u t` carries a `t` at least as large as the limit the lister had for `u` -/
+def NoLower : List (Nat × Int) → List Op → Prop
+  | _, [] => True
+  | listed, .list u t :: rest => (∀ t0, aget listed u = some t0 → t0 ≤ t) ∧ NoLower (aset listed u t) rest
+  | listed, _ :: rest => NoLower listed rest
+
+/-- the record's limit was never lowered and is at most what the lister says now -/
+def NLe (listed : List (Nat × Int)) (p : Nat × UpStore) : Prop :=
+  p.2.hi = p.2.srv.total ∧ ∃ t, aget listed p.1 = some t ∧ p.2.srv.total ≤ t
+
+structure NLInv (s : Server) : Prop where
+  ups : ∀ p ∈ s.ups, NLe s.listed p
+  api : ∀ p ∈ s.api, NLe s.listed p
+
+theorem persist_listed (s : Server) : s.persist.listed = s.listed := by unfold Server.persist; split <;> rfl
+
+theorem nl_persist {s : Server} (h : NLInv s) : NLInv s.persist ∧ s.persist.listed = s.listed := by
+  refine ⟨?_, persist_listed s⟩
+  unfold Server.persist
+  split
+  · refine ⟨h.ups, ?_⟩
+    intro p hp
+    rcases List.mem_append.1 hp with e | e
+    · exact h.ups p e
+    · exact h.api p (List.mem_filter.1 e).1
+  · exact h
+
+section
+variable (shardOf : Nat → Nat)
+
+theorem nl_handle {s : Server} (h : NLInv s) (u : Nat) :
+    NLInv (s.handle shardOf u) ∧ (s.handle shardOf u).listed = s.listed := by
+  unfold Server.handle
+  simp only
+  split
+  · exact ⟨h, rfl⟩
+  · split
+    · exact ⟨h, rfl⟩
+    · split
+      · exact ⟨h, rfl⟩
+      · rename_i t ht
+        apply nl_persist
+        refine ⟨?_, h.api⟩
+        intro p hp
+        rcases mem_aset hp with e | e
+        · subst e
+          show NLe s.listed _
+          split
+          · rename_i e0 he0
+            obtain ⟨h1, t0, h2, h3⟩ := h.ups _ (aget_mem he0)
+            simp only at h1 h2 h3
+            rw [ht] at h2
+            have : t0 = t := (Option.some.inj h2).symm
+            subst this
+            refine ⟨?_, t0, ht, ?_⟩
+            · simp only [UpStore.setLimit, Alloc.step]; split <;> omega
+            · simp only [UpStore.setLimit, Alloc.step]; exact Int.le_refl _
+          · exact ⟨rfl, t, ht, Int.le_refl _⟩
+        · exact h.ups p e.1
+
+theorem nl_foldl {β : Type} (f : Server → β → Server)
+    (hf : ∀ s b, NLInv s → NLInv (f s b) ∧ (f s b).listed = s.listed) :
+    ∀ (l : List β) (s : Server), NLInv s → NLInv (l.foldl f s) ∧ (l.foldl f s).listed = s.listed
+  | [], _, h => ⟨h, rfl⟩
+  | b :: rest, s, h => by
+    obtain ⟨h1, h2⟩ := hf s b h
+    obtain ⟨h3, h4⟩ := nl_foldl f hf rest (f s b) h1
+    exact ⟨h3, h4.trans h2⟩
+
+theorem nl_startLeading {s : Server} (h : NLInv s) (k : Nat) :
+    NLInv (s.startLeading shardOf k) ∧ (s.startLeading shardOf k).listed = s.listed := by
+  unfold Server.startLeading
+  split
+  · exact ⟨h, rfl⟩
+  · simp only
+    refine nl_foldl _ (fun st p hst => nl_handle shardOf hst p.1) _ _ ?_
+    refine ⟨?_, h.api⟩
+    intro p hp
+    rcases List.mem_append.1 hp with e | e
+    · split at e
+      · exact h.api p (List.mem_filter.1 e).1
+      · simp at e
+    · exact h.ups p (List.mem_filter.1 e).1
+
+theorem nl_stopLeading {s : Server} (h : NLInv s) (k : Nat) :
+    NLInv (s.stopLeading shardOf k) ∧ (s.stopLeading shardOf k).listed = s.listed :=
+  ⟨⟨fun p hp => h.ups p (List.mem_filter.1 hp).1, h.api⟩, rfl⟩
+
+theorem nl_leaderCheck {s : Server} (h : NLInv s) :
+    NLInv (s.leaderCheck shardOf) ∧ (s.leaderCheck shardOf).listed = s.listed := by
+  unfold Server.leaderCheck
+  simp only
+  obtain ⟨h1, h2⟩ := nl_foldl _ (fun st k hst => nl_startLeading shardOf hst k)
+    (s.leaders.filter (fun k => !s.hasStore k)) s h
+  obtain ⟨h3, h4⟩ := nl_foldl _ (fun st k hst => nl_stopLeading shardOf hst k)
+    ((List.foldl (fun st k => st.startLeading shardOf k) s (s.leaders.filter (fun k => !s.hasStore k))).stores.filter
+      (fun k => !s.isLeader k)) _ h1
+  exact ⟨h3, h4.trans h2⟩
+
+theorem nl_mapUps {s : Server} (h : NLInv s) (hb : List (Nat × Nat)) (f : Nat × UpStore → UpStore)
+    (hf : ∀ p, (f p).hi = p.2.hi ∧ (f p).srv.total = p.2.srv.total) :
+    NLInv ({ s with hb := hb, ups := s.ups.map (fun p => (p.1, f p)) } : Server) := by
+  refine ⟨?_, h.api⟩
+  intro p hp
+  obtain ⟨q, hq, rfl⟩ := List.mem_map.1 hp
+  obtain ⟨h1, t, h2, h3⟩ := h.ups q hq
+  obtain ⟨f1, f2⟩ := hf q
+  exact ⟨by simp only; rw [f1, f2]; exact h1, t, h2, by simp only; rw [f2]; exact h3⟩
+
+theorem nl_cleanupTimeout {s : Server} (h : NLInv s) (now : Nat) :
+    NLInv (s.cleanupTimeout shardOf now) ∧ (s.cleanupTimeout shardOf now).listed = s.listed := by
+  unfold Server.cleanupTimeout
+  apply nl_persist
+  apply nl_mapUps h
+  intro p; split <;> exact ⟨rfl, rfl⟩
+
+theorem nl_cleanupUnknown {s : Server} (h : NLInv s) :
+    NLInv (s.cleanupUnknown shardOf) ∧ (s.cleanupUnknown shardOf).listed = s.listed := by
+  unfold Server.cleanupUnknown
+  apply nl_persist
+  exact nl_mapUps h s.hb (fun p => if s.isLeader (shardOf p.1) then p.2.drop (fun i => !s.hbHas i) else p.2)
+    (by intro p; show (if _ then _ else _ : UpStore).hi = _ ∧ (if _ then _ else _ : UpStore).srv.total = _
+        split <;> exact ⟨rfl, rfl⟩)
+
+theorem nl_report {s : Server} (h : NLInv s) (u i : Nat) (x m : Rat) (used lvl : Int) :
+    NLInv (s.report shardOf u i x m used lvl).1 ∧ (s.report shardOf u i x m used lvl).1.listed = s.listed := by
+  unfold Server.report
+  split
+  · exact ⟨h, rfl⟩
+  · rename_i e he
+    simp only
+    apply nl_persist
+    refine ⟨?_, h.api⟩
+    intro p hp
+    rcases mem_aset hp with e1 | e1
+    · subst e1
+      obtain ⟨h1, t, h2, h3⟩ := h.ups _ (serving_mem shardOf he)
+      exact ⟨h1, t, h2, h3⟩
+    · exact h.ups p e1.1
+
+/-- one step keeps `NLInv`; the lister changes by `.list` only -/
+theorem nl_step {s : State} (h : NLInv s.srv) (op : Op)
+    (hop : match op with | .list u t => ∀ t0, aget s.srv.listed u = some t0 → t0 ≤ t | _ => True) :
+    NLInv (step shardOf s op).srv ∧
+    (step shardOf s op).srv.listed = (match op with | .list u t => aset s.srv.listed u t | _ => s.srv.listed) := by
+  cases op with
+  | list u t =>
+    refine ⟨?_, rfl⟩
+    simp only [step]
+    have key : ∀ p : Nat × UpStore, NLe s.srv.listed p → NLe (aset s.srv.listed u t) p := by
+      intro p ⟨h1, t0, h2, h3⟩
+      by_cases hp : p.1 = u
+      · refine ⟨h1, t, by rw [hp]; exact aget_aset_self _ _ _, ?_⟩
+        have := hop t0 (hp ▸ h2); omega
+      · exact ⟨h1, t0, by rw [aget_aset_ne _ _ _ _ hp]; exact h2, h3⟩
+    exact ⟨fun p hp => key p (h.ups p hp), fun p hp => key p (h.api p hp)⟩
+  | handle u => exact nl_handle shardOf h u
+  | gwSchema g u l t => simp only [step, State.setGw]; (repeat' split) <;> exact ⟨h, rfl⟩
+  | hb g now =>
+    simp only [step, State.setGw]
+    (repeat' split) <;> first | exact ⟨h, rfl⟩ | exact ⟨⟨h.ups, h.api⟩, rfl⟩
+  | report g u x m used lvl =>
+    simp only [step]
+    split
+    · exact ⟨h, rfl⟩
+    · split
+      · exact ⟨h, rfl⟩
+      · split
+        · exact ⟨h, rfl⟩
+        · rename_i gw _ _ _ srv' n hsr
+          have := nl_report shardOf h u gw.id x m used lvl
+          rw [hsr] at this
+          exact this
+  | tick now =>
+    obtain ⟨h1, h2⟩ := nl_cleanupTimeout shardOf h now
+    obtain ⟨h3, h4⟩ := nl_leaderCheck shardOf h1
+    exact ⟨h3, h4.trans h2⟩
+  | unknownPass => exact nl_cleanupUnknown shardOf h
+  | elect k b => exact ⟨⟨h.ups, h.api⟩, rfl⟩
+  | gain k => exact nl_startLeading shardOf (s := s.srv.elect k true) ⟨h.ups, h.api⟩ k
+  | lose k => exact nl_stopLeading shardOf (s := s.srv.elect k false) ⟨h.ups, h.api⟩ k
+  | net g b => simp only [step, State.setGw]; (repeat' split) <;> exact ⟨h, rfl⟩
+  | crash g => simp only [step, State.setGw]; (repeat' split) <;> exact ⟨h, rfl⟩
+  | ret g id => simp only [step, State.setGw]; (repeat' split) <;> exact ⟨h, rfl⟩
+
+theorem nl_run : ∀ (ops : List Op) (s : State), NLInv s.srv → NoLower s.srv.listed ops →
+    NLInv (run shardOf s ops).srv
+  | [], _, h, _ => h
+  | op :: rest, s, h, hn => by
+    simp only [run, List.foldl_cons]
+    cases op with
+    | list u t =>
+      obtain ⟨h1, h2⟩ := nl_step shardOf h (.list u t) hn.1
+      exact nl_run rest _ h1 (by rw [h2]; exact hn.2)
+    | handle u => obtain ⟨h1, h2⟩ := nl_step shardOf h (.handle u) trivial; exact nl_run rest _ h1 (by rw [h2]; exact hn)
+    | gwSchema g u l t =>
+      obtain ⟨h1, h2⟩ := nl_step shardOf h (.gwSchema g u l t) trivial; exact nl_run rest _ h1 (by rw [h2]; exact hn)
+    | hb g now => obtain ⟨h1, h2⟩ := nl_step shardOf h (.hb g now) trivial; exact nl_run rest _ h1 (by rw [h2]; exact hn)
+    | report g u x m used lvl =>
+      obtain ⟨h1, h2⟩ := nl_step shardOf h (.report g u x m used lvl) trivial
+      exact nl_run rest _ h1 (by rw [h2]; exact hn)
+    | tick now => obtain ⟨h1, h2⟩ := nl_step shardOf h (.tick now) trivial; exact nl_run rest _ h1 (by rw [h2]; exact hn)
+    | unknownPass => obtain ⟨h1, h2⟩ := nl_step shardOf h .unknownPass trivial; exact nl_run rest _ h1 (by rw [h2]; exact hn)
+    | elect k b => obtain ⟨h1, h2⟩ := nl_step shardOf h (.elect k b) trivial; exact nl_run rest _ h1 (by rw [h2]; exact hn)
+    | gain k => obtain ⟨h1, h2⟩ := nl_step shardOf h (.gain k) trivial; exact nl_run rest _ h1 (by rw [h2]; exact hn)
+    | lose k => obtain ⟨h1, h2⟩ := nl_step shardOf h (.lose k) trivial; exact nl_run rest _ h1 (by rw [h2]; exact hn)
+    | net g b => obtain ⟨h1, h2⟩ := nl_step shardOf h (.net g b) trivial; exact nl_run rest _ h1 (by rw [h2]; exact hn)
+    | crash g => obtain ⟨h1, h2⟩ := nl_step shardOf h (.crash g) trivial; exact nl_run rest _ h1 (by rw [h2]; exact hn)
+    | ret g id => obtain ⟨h1, h2⟩ := nl_step shardOf h (.ret g id) trivial; exact nl_run rest _ h1 (by rw [h2]; exact hn)
+
+end
+
 
 end KG.Lemmas.LimiterLoop
